@@ -682,7 +682,8 @@ func digitRuns(b []byte) [][2]int {
 }
 
 func numericBoundaries(old string) []string {
-	vals := []string{"0", "1", "255", "256", "65535", "65536", "2147483647", "2147483648", "4294967295", "4294967296", "9223372036854775807", "9223372036854775808", "18446744073709551615", "99999999999999999999", "-1"}
+	vals := []string{"0", "1", "255", "256", "65535", "65536", "2147483647", "2147483648", "4294967295", "4294967296", "9223372036854775807", "9223372036854775808", "18446744073709551615", "99999999999999999999", "-1",
+		"03", "+3", "0x10", "1h", "abc", "1e3", "1.5"} // accepted by some integer parsers, not numbers to others
 	if n, err := strconv.ParseInt(old, 10, 64); err == nil {
 		vals = append(vals, strconv.FormatInt(n+1, 10))
 		if n > 0 {
